@@ -161,7 +161,7 @@ Proof. exact mldrec_roundtrip. Qed.
 Print Assumptions C06_mldrec_roundtrip.
 
 Theorem C06_mldrec_reparse : forall bs r,
-  bytes_ok bs = true -> mldrec_check_len bs = Ok tt ->
+  bytes_ok bs = true ->
   mldrec_parse bs = Ok r -> ipv6_addr_is_multicast (mldrec_addr r) = true ->
   mldrec_wf r = true /\
   forall b, blen b = mldrec_buffer_len r ->
